@@ -830,7 +830,7 @@ func TestC15(t *testing.T) {
 	run.Assume("(a) publishers keep at most 5 QoS 2 handshakes open, as a well-behaved sender does (the broker's publish flow control is 10)", "(b) the relative order between re-sent PUBLISH and re-sent PUBREL packets is not judged (MQTT 4.6 orders each kind)")
 	defer run.Finish(t)
 
-	run.Rapid(t, "flow", ev.Pick(120, 12000), func(rt *rapid.T) {
+	run.Rapid(t, "flow", ev.Pick(250, 12000), func(rt *rapid.T) {
 		c := genFlow(rt)
 		run.Eval(1)
 		run.Class("broker-concurrent")
@@ -844,7 +844,7 @@ func TestC15(t *testing.T) {
 	})
 	for _, side := range []string{"broker", "client"} {
 		side := side
-		run.Rapid(t, "resume-"+side, ev.Pick(150, 15000), func(rt *rapid.T) {
+		run.Rapid(t, "resume-"+side, ev.Pick(300, 15000), func(rt *rapid.T) {
 			c := genResume(rt, side)
 			run.Eval(1)
 			run.Class("resume-" + side)
@@ -865,7 +865,7 @@ func TestC15(t *testing.T) {
 			}
 		})
 	}
-	run.Rapid(t, "inbound", ev.Pick(150, 15000), func(rt *rapid.T) {
+	run.Rapid(t, "inbound", ev.Pick(300, 15000), func(rt *rapid.T) {
 		c := &Inbound{Early: rapid.Bool().Draw(rt, "early")}
 		mix := rapid.SampledFrom([][]int{{0}, {1}, {2}, {0, 1, 2}, {1, 2}}).Draw(rt, "mix")
 		for n := rapid.IntRange(2, 40).Draw(rt, "n"); n > 0; n-- {
@@ -879,7 +879,7 @@ func TestC15(t *testing.T) {
 			rt.Fatalf("%s: %s", v.sig, v.msg)
 		}
 	})
-	run.Rapid(t, "service", ev.Pick(80, 8000), func(rt *rapid.T) {
+	run.Rapid(t, "service", ev.Pick(160, 8000), func(rt *rapid.T) {
 		c := &Commands{}
 		for n := rapid.IntRange(2, 40).Draw(rt, "n"); n > 0; n-- {
 			c.Kinds = append(c.Kinds, rapid.SampledFrom([]string{"p0", "p0", "p1", "s", "u"}).Draw(rt, "kind"))
